@@ -295,7 +295,7 @@ uint64_t *varintDictDecode(const uint8_t *buffer, size_t bufferLen,
     }
 
     /* Check if we have enough buffer for indices */
-    if (ptr + (count * indexWidth) > end) {
+    if (count > (size_t)(end - ptr) / indexWidth) {
         free(dictValues);
         return NULL;
     }
@@ -395,7 +395,7 @@ size_t varintDictDecodeInto(const uint8_t *buffer, size_t bufferLen,
     }
 
     /* Check buffer bounds */
-    if (ptr + (count * indexWidth) > end) {
+    if (count > (size_t)(end - ptr) / indexWidth) {
         free(dictValues);
         return 0;
     }
